@@ -1,5 +1,5 @@
 (* C01 - CTAP2 request decoding is faithful to the specification's parameter tables. *)
-From Ctap Require Import Base Schema Wire Utf8 Typed Procs Inst Tables ProcTables Finite CborItem WireP SkipP TypedP EntriesP FramingP C11P WellTyped SerP RoundTripP ObRequestSide ObOpTables ObEnvRt AgreeP ObRequestAgree FnShapes Shapes ObShapeRequest.
+From Ctap Require Import Base Schema Wire Utf8 Typed Procs Inst Tables ProcTables Finite CborItem WireP SkipP TypedP EntriesP FramingP C11P WellTyped SerP RoundTripP ObRequestSide ObOpTables ObEnvRt AgreeP ObRequestAgree FnShapes Shapes ObShapeRequest Deps ObDeps.
 Local Open Scope string_scope.
 Local Open Scope Z_scope.
 
@@ -128,6 +128,10 @@ Proof. vm_compute. reflexivity. Qed.
 Theorem c01_modelled_functions_unchanged_request : shapes_hold fn_shapes shapes_request = true.
 Proof. exact generated_shapes_request. Qed.
 
+(* the third-party crates the model represents by hand are pinned at the versions it was written against *)
+Theorem c01_modelled_dependencies_pinned : deps_hold lock_versions cargo_deps = true.
+Proof. exact generated_deps. Qed.
+
 Eval vm_compute in "ASSUMPTIONS c01_indexed_map_faithful". Print Assumptions c01_indexed_map_faithful.
 Eval vm_compute in "ASSUMPTIONS c01_text_map_faithful". Print Assumptions c01_text_map_faithful.
 Eval vm_compute in "ASSUMPTIONS c01_generated_conforms". Print Assumptions c01_generated_conforms.
@@ -140,3 +144,4 @@ Eval vm_compute in "ASSUMPTIONS c01_spec_declarations_wellformed". Print Assumpt
 Eval vm_compute in "ASSUMPTIONS c01_modelled_functions_unchanged_request". Print Assumptions c01_modelled_functions_unchanged_request.
 Eval vm_compute in "ASSUMPTIONS c01_generated_agreement". Print Assumptions c01_generated_agreement.
 Eval vm_compute in "ASSUMPTIONS c01_generated_model_is_spec_model". Print Assumptions c01_generated_model_is_spec_model.
+Eval vm_compute in "ASSUMPTIONS c01_modelled_dependencies_pinned". Print Assumptions c01_modelled_dependencies_pinned.
